@@ -40,6 +40,8 @@ def plan(tier, seed):
 	for L in ((6, 7, 8) if tier == 'quick' else (6, 7, 8, 9, 10)):
 		for part in range(4):
 			tasks.append(('t_chains', dict(L=L, part=part, nparts=4)))
+	for L in ((31, 32, 33, 34, 40, 65, 130) if tier == 'quick' else (31, 32, 33, 34, 35, 40, 63, 64, 65, 66, 100, 127, 128, 129, 130, 257, 600)):
+		tasks.append(('t_very_deep', dict(L=L)))
 	for start in range(len(taxo.WORLDS)):
 		tasks.append(('t_persisted', dict(start=start, depth=3 if tier == 'quick' else 4)))
 	tasks.append(('t_report', dict(N=5 if tier == 'quick' else 6)))
@@ -170,6 +172,40 @@ def t_chains(L, part, nparts):
 					check_item(sh, parent, thr, report, taxa, placement, dists, genomes)
 	sh.count('deep_lineage_cases', sh.evals)
 	sh.sample(dict(family='chains', depth=L, thr=list(thr), placement=list(placement), dists=list(dists)))
+	return sh
+
+
+def t_very_deep(L):
+	"""Lineages of 31..600 levels (NCBI lineages with unranked clades are this deep): the only threshold-bearing / reportable taxon sits at each
+	level in turn, or at two levels out of a boundary set; genome on the leaf, in the middle, or both; every distance below / at / above."""
+	sh = Shard()
+	parent = tuple([None] + list(range(L - 1)))      # taxon 0 is the root, L-1 the leaf
+	taxa = taxo.build_taxa(parent)
+	levels = list(range(L)) if L <= 130 else sorted(set(list(range(0, 40)) + list(range(L - 70, L)) + list(range(40, L - 70, 17))))
+	bset = sorted({0, 1, 2, L // 2, L - 2, L - 1} | {x for x in range(L - 36, L - 28) if x >= 0})
+	thrs = []
+	for j in levels:
+		t = [None] * L
+		t[j] = 0.5
+		thrs.append(tuple(t))
+	for j1, j2 in itertools.combinations(bset, 2):
+		t = [None] * L
+		t[j1], t[j2] = 0.5, 0.25
+		thrs.append(tuple(t))
+		t = [None] * L
+		t[j1], t[j2] = 0.25, 0.5              # non-monotone: the deeper taxon has the wider threshold
+		thrs.append(tuple(t))
+	reports = [tuple([True] * L), tuple(i == 0 for i in range(L)), tuple(i % 33 == 1 for i in range(L))]
+	for thr in thrs:
+		for report in reports:
+			taxo.set_attrs(taxa, thr=thr, report=report)
+			for placement in ((L - 1,), (L // 2,), (L - 1, L // 2)):
+				genomes = taxo.make_genomes(taxa, placement)
+				for dists in itertools.product([0.0, 0.25, 0.5, 0.75], repeat=len(placement)):
+					check_item(sh, parent, thr, report, taxa, placement, dists, genomes, stats=False)
+	sh.nontrivial += sh.evals
+	sh.count('very_deep_lineage_cases', sh.evals)
+	sh.sample(dict(family='very_deep', depth=L, bearing_levels=[i for i, t in enumerate(thr) if t is not None], placement=list(placement), dists=list(dists)))
 	return sh
 
 
